@@ -169,6 +169,33 @@ impl Tm {
         }
     }
 
+    /// An alpha-variant: every binder gets a new name, counting *down* from `next` in traversal order - the bound names of a node
+    /// with several binders come out in descending order, those of nested binders too (the generators name binders upwards).
+    pub fn alpha_variant(&self, next: &mut Name) -> Tm {
+        self.av_impl(next, &BTreeMap::new())
+    }
+    fn av_impl(&self, next: &mut Name, env: &BTreeMap<Name, Name>) -> Tm {
+        Tm {
+            op: self.op,
+            slots: self.slots.iter().map(|x| *env.get(x).unwrap_or(x)).collect(),
+            kids: self
+                .kids
+                .iter()
+                .map(|(bs, k)| {
+                    let mut e = env.clone();
+                    let mut nb = vec![];
+                    for b in bs {
+                        e.insert(*b, *next);
+                        nb.push(*next);
+                        *next -= 1;
+                    }
+                    (nb, k.av_impl(next, &e))
+                })
+                .collect(),
+            pay: self.pay.clone(),
+        }
+    }
+
     pub fn alpha_eq(&self, o: &Tm) -> bool {
         self.canon() == o.canon()
     }
@@ -236,7 +263,13 @@ const F_FREE: u32 = 2_000_000;
 const F_BOUND: u32 = 50_000_000;
 const F_STEP: u32 = 100_000;
 
+/// names in [NUM_BASE, NUM_BASE + 1000) print as *numeric* slots ($100000 ...): numeric slots are ordered by value, not by the order in
+/// which their names were first parsed, so binders named downwards from NUM_BASE + 400 sort against their order of appearance
+pub const NUM_BASE: Name = 900_000;
 pub fn pname(n: Name) -> String {
+    if (NUM_BASE..NUM_BASE + 1000).contains(&n) {
+        return format!("${}", 100_000 + (n - NUM_BASE));
+    }
     let fresh_like = NAMING.load(std::sync::atomic::Ordering::Relaxed) == 1;
     if n >= BOUND {
         if fresh_like && n - BOUND < 2000 {
